@@ -94,6 +94,7 @@ pub struct Interp<'tcx> {
     pub peel: Vec<(String, u32)>,
     /// callee name patterns whose integer results are tracked as path facts
     pub track_ret: Vec<String>,
+    pub fact_gen: u64,
     pub ret_key: u8,
     pub next_atom: usize,
     pub cur_bb: usize,
@@ -159,6 +160,7 @@ impl<'tcx> Interp<'tcx> {
             moduli: Rc::new(Vec::new()),
             peel: Vec::new(),
             track_ret: Vec::new(),
+            fact_gen: 0,
             ret_key: 3,
             next_atom: 0,
             cur_bb: 0,
